@@ -228,7 +228,7 @@ func gateExpectedSetID(w *World, r *Report) {
 	r.floor("GATE", "readFile calls in LoadParityData", n, 1)
 }
 
-func gatePar1(w *World, r *Report) {
+func gatePar1(w *World, r *Report, probe bool) {
 	// G4
 	if fn := w.Fn("par1.readVolume"); fn != nil {
 		rets := successReturns(fn)
@@ -299,7 +299,7 @@ func gatePar1(w *World, r *Report) {
 		r.floor("GATE", "parity volume acceptance returns", n, 1)
 		// every candidate volume number 1..max is probed: the loop makes exactly max trips
 		for _, vc := range callsIn(fn, "(*par1.Decoder).volumePath") {
-			if vc.Parent() != fn {
+			if vc.Parent() != fn || !probe {
 				continue
 			}
 			arg := stripAllConv(vc.Common().Args[1])
@@ -513,7 +513,7 @@ func gateSlices(w *World, r *Report) {
 	}
 }
 
-type gateOpts struct{ par2, par1 bool }
+type gateOpts struct{ par2, par1, probe bool }
 
 func ruleGATE(w *World, r *Report, o gateOpts) {
 	r.rule("GATE", ruleGATEText)
@@ -524,7 +524,7 @@ func ruleGATE(w *World, r *Report, o gateOpts) {
 		gateSlices(w, r)
 	}
 	if o.par1 {
-		gatePar1(w, r)
+		gatePar1(w, r, o.probe)
 	}
 }
 
